@@ -547,14 +547,19 @@ package cbor
 //@   flag noovf
 //@   flag tags binary_log
 //@   ensures prefix(res, dst) && res[len(dst)] == 0xc1 && len(res) == len(dst) + 1 + headlen(res, len(dst) + 1) && mt(res, len(dst) + 1) <= 1
+//@   ensures [C09] unixsec(t) >= 0 ==> mt(res, len(dst) + 1) == 0 && argof(res, len(dst) + 1) == uint64(unixsec(t))
+//@   ensures [C09] unixsec(t) < 0 ==> mt(res, len(dst) + 1) == 1 && argof(res, len(dst) + 1) == uint64(-1 - unixsec(t))
 //@   ensures! emitsvalue(res, dst)
 
 //@ func (Encoder).appendFloatTimestamp(e, dst, t) res
 //@   props C09 C01 C03
 //@   arith int
 //@   flag noovf
+//@   flag fp
 //@   flag tags binary_log
 //@   ensures prefix(res, dst) && res[len(dst)] == 0xc1 && res[len(dst) + 1] == 0xfb && len(res) == len(dst) + 10
+//@   ensures [C09] ncalls(Encoder.AppendFloat64) == old(ncalls(Encoder.AppendFloat64)) + 1
+//@   ensures [C09] callarg(Encoder.AppendFloat64, old(ncalls(Encoder.AppendFloat64)), 2) == fadd(itof64(unixsec(t)), fmul(itof64(nanosec(t)), fconst("1e-9", 64)))
 //@   ensures! emitsvalue(res, dst)
 
 //@ func (Encoder).AppendTime(e, dst, t, unused) res
